@@ -163,6 +163,8 @@ func c01Init() {
 
 var c01NameT = reflect.TypeOf(xml.Name{})
 var c01TimeT = reflect.TypeOf(time.Time{})
+var c01NullIntT = reflect.TypeOf(stanza.NullableInt{})
+var c01HistoryT = reflect.TypeOf(stanza.History{})
 
 func c01TagInfo(f reflect.StructField) (name string, flags map[string]bool) {
 	flags = map[string]bool{}
@@ -191,6 +193,12 @@ func c01Fill(v reflect.Value, r *rand.Rand, depth int, plainText bool) {
 			}
 			return
 		}
+		if v.Type() == c01NullIntT { // value + unexported "is set" flag: only through the constructor
+			if r.Intn(2) == 0 {
+				v.Set(reflect.ValueOf(stanza.NewNullableInt(r.Intn(2001) - 1000)))
+			}
+			return
+		}
 		t := v.Type()
 		for i := 0; i < t.NumField(); i++ {
 			f := t.Field(i)
@@ -201,8 +209,8 @@ func c01Fill(v reflect.Value, r *rand.Rand, depth int, plainText bool) {
 			if name == "-" {
 				continue
 			}
-			if f.Name == "XMLName" && name != "" {
-				continue // the tag fixes the name
+			if f.Name == "XMLName" && (name != "" || t == c01HistoryT) {
+				continue // the tag (History: MarshalXML) fixes the name
 			}
 			c01Fill(v.Field(i), r, depth+1, flags["innerxml"])
 		}
@@ -249,6 +257,10 @@ func c01Canon(v reflect.Value) interface{} {
 		if v.Type() == c01TimeT {
 			return v.Interface().(time.Time).UTC().Format(time.RFC3339Nano)
 		}
+		if v.Type() == c01NullIntT {
+			n, set := v.Interface().(stanza.NullableInt).Get()
+			return []interface{}{n, set}
+		}
 		t := v.Type()
 		var out []interface{}
 		for i := 0; i < t.NumField(); i++ {
@@ -258,7 +270,7 @@ func c01Canon(v reflect.Value) interface{} {
 			}
 			name, _ := c01TagInfo(f)
 			if f.Name == "XMLName" && f.Type == c01NameT {
-				if name != "" {
+				if name != "" || t == c01HistoryT {
 					continue
 				}
 				out = append(out, f.Name, v.Field(i).Interface().(xml.Name).Local)
